@@ -455,6 +455,15 @@ func genC07(g *Gen) {
 			g.Emit("lru", []string{itoa(c)}, []string{"create"})
 		}
 	}
+	// bulk runs: large capacities, fill beyond capacity (evictions), drain from the old end, refill
+	for _, n := range bulkSizes(g.Thorough()) {
+		if !g.Mine() {
+			continue
+		}
+		ops := append([]string{"create"}, bulkOps(func(i int) string { return "add " + itoa(i%(n+9)) + " " + itoa(i) },
+			"removeoldest", []string{"count", "getyoungest"}, n+20)...)
+		g.Emit("lru", []string{itoa(n)}, ops)
+	}
 	n := 300
 	if g.Thorough() {
 		n = 6000
